@@ -32,18 +32,19 @@ type Monitor struct {
 	// the current right-hand side root of each bind (by lhs-change id), -1 = nil, absent = never built
 	rhsRoot map[int]int
 	// dead generations: nodes that must never run again (C08)
-	dead       map[int]bool
-	deadBefore map[int]bool // dead before the current pass started
+	dead          map[int]bool
+	deadBefore    map[int]bool // dead before the current pass started
 	necThisPass   map[int]bool // nodes that (re-)entered the graph during the current pass
 	deadByReentry map[int]bool // discarded by a bind function run that happened because the bind re-entered the graph
-	everNec    map[int]bool // ever became necessary
+	everNec       map[int]bool // ever became necessary
 	// whether any pass since the last fully successful one failed
-	failedSince bool
-	Rejected    bool // some operation so far returned a cycle / height-limit rejection
-	Cyclic      bool // an accepted AddInput made the program cyclic
-	CyclicAt    int
-	deferred    map[int]int // C12: var -> value the mid-pass writes of this pass must leave behind
-	passStart   map[int]int // C12: var values when the pass started
+	failedSince     bool
+	Rejected        bool  // some operation so far returned a cycle / height-limit rejection
+	faultedThisPass []int // nodes at which the plan injected a fault that was reached in the current pass
+	Cyclic          bool  // an accepted AddInput made the program cyclic
+	CyclicAt        int
+	deferred        map[int]int // C12: var -> value the mid-pass writes of this pass must leave behind
+	passStart       map[int]int // C12: var values when the pass started
 }
 
 func NewMonitor(e *Exec) *Monitor {
@@ -68,6 +69,8 @@ func (m *Monitor) add(prop, kind, what string) {
 
 func (m *Monitor) onEvent(ev Event) {
 	switch ev.K {
+	case "EvFault":
+		m.faultedThisPass = append(m.faultedThisPass, ev.N)
 	case "EvNec":
 		if m.live[ev.N] {
 			m.add("C10", "necessary-twice", fmt.Sprintf("n%d reported 'became necessary' while already necessary", ev.N))
@@ -165,6 +168,7 @@ func (m *Monitor) onAction(a Action) {
 func (m *Monitor) BeforeOp(op Op) {
 	if op.K == "Stabilize" || op.K == "StabilizeCancelled" || op.K == "ParStabilize" {
 		m.runsThisPass = map[int]int{}
+		m.faultedThisPass = nil
 		m.necThisPass = map[int]bool{}
 		m.deferred = map[int]int{}
 		m.passStart = map[int]int{}
@@ -470,6 +474,20 @@ func (m *Monitor) AfterOp(op Op, s Sample) {
 			m.add("C07", "spurious-error", fmt.Sprintf("%s returned %s although nothing failed", op.String(), s.Class))
 		}
 	}
+	// C07: a pass keeps every node it did not successfully recompute scheduled: the node whose function
+	// (cutoff predicate, bind function) failed is queued when the pass returns, if it is still in the graph
+	if isPass && (s.Class == "XUser" || s.Class == "XPanic") && !s.Crashed && !m.Cyclic && !m.Rejected {
+		for _, id := range m.faultedThisPass {
+			ref := e.Nodes[id]
+			if ref == nil || ref.Recycled || ref.Kind == "Sentinel" || !e.G.Has(ref.INode) {
+				continue
+			}
+			if !incr.ExpertNode(ref.INode).IsInRecomputeHeap() {
+				m.add("C07", "failed-node-not-requeued", fmt.Sprintf("the function of n%d failed in %s (%s) but the node is not queued afterwards", id, op.String(), s.Class))
+				break
+			}
+		}
+	}
 	// C03 / C07: a sentinel that watches a node of the graph is an always-node: whatever happened in the pass
 	// -- it ran, it failed, it panicked, the pass stopped before reaching it -- it is queued for the next one
 	if isPass && s.Class != "XCycle" && s.Class != "XLimit" && s.Class != "XAlready" && !s.Crashed && !m.Cyclic && !m.Rejected {
@@ -708,7 +726,7 @@ func (m *Monitor) passOracles(op Op, s Sample) {
 		}
 		if sref.Fired && sref.Watched >= 0 && e.Registered(sref.Watched) {
 			w := e.Nodes[sref.Watched]
-			if (w.Kind == "Map" || w.Kind == "Map2" || w.Kind == "MapN" || w.Kind == "Cutoff") {
+			if w.Kind == "Map" || w.Kind == "Map2" || w.Kind == "MapN" || w.Kind == "Cutoff" {
 				m.add("C03", "sentinel-wake-missed", fmt.Sprintf("sentinel s%d fired but the necessary node n%d it watches did not recompute", sid, sref.Watched))
 			}
 		}
